@@ -172,6 +172,25 @@ CLAIMED = {
    ref="§5 C16"),
 }
 PENDING_REASON = "check not built yet in this session (build in progress, see DESIGN.md §10); not claimed until its theorems and correspondence run"
+
+# additions made after the second round of seeded changes (appended to the level text)
+MORE = {
+ "C01": " The round trip is also run through configured pointer-extension pairs of three kinds (size-preserving, shrinking, growing).",
+ "C02": " No theorem assumes the pre-existing final file to be intact: success_replaces_corrupt_final covers a wrong-content file of any length already sitting at the final path, and the campaign plants such files.",
+ "C03": " Remotes are http (fake server that rejects a PUT body not hashing to its oid) or file:// (standalone transfer agent); local objects are damaged (deleted, truncated, extended, bit-flipped) before the push; D37 fixed in /repo.",
+ "C06": " TQErr: every errored object is covered by an error the queue reports (errored_objects_are_reported); the model's `reported` flag is compared with Errors() on every run incl. a directed mixed-batch family.",
+ "C09": " Reference-store scenarios (hard link and copy, failed link) are part of the enumeration.",
+ "C10": " Location forms: absolute, path-only, network-path (//authority/...) and malformed.",
+ "C11": " End to end, the effective values the consumers see (`git lfs env`: fetchinclude, fetchexclude, skipdownloaderrors, url) are compared with the documented precedence for keys set in .lfsconfig (worktree/index/HEAD) and in Git's local/global configuration at once.",
+ "C13": " Staged new versions of tracked paths (one path, two contents) are part of the scenarios.",
+ "C15": " Per-object deferrals with different Retry-After values and a directed several-objects-waiting family: the first request naming a deferred object must not start before its ready time.",
+ "C17": " A context machine (ctxRun) covers SEQUENCES of URLs on one credential-helper context: protection follows the current URL's setting (protection_follows_current_url), compared end to end through a fake `git` that records the stdin it is given.",
+ "C18": " The fake server spells offered action header names in four ways and may offer Authorization/Content-Type; each offered header must arrive exactly once with the offered value.",
+ "C19": " Sequences of 2-5 track/untrack/--lockable/--not-lockable operations over related patterns (rooted/unrooted, globs, directories) are judged after every step against hand-quoted reference patterns by `git check-attr`.",
+ "C20": " Hook states include symlinks to user scripts; both configuration scopes are planted and the untargeted scope must never be written.",
+}
+for k, v in MORE.items():
+    CLAIMED[k]["text"] += v
 ALL = ["C%02d" % i for i in range(1, 21)]
 m = {
  "version": 1,
